@@ -207,6 +207,13 @@ def havoc_heap(eng, st, name, ref, ty=None):
         st.assume(V.cmp(">=", nl.n, 0))
         st.heap[ref.loc] = nl
         return
+    if isinstance(obj, ArrV) and obj.dtype == "obj":
+        # object array of by-value integer sequences (SpectrumResult's D)
+        lv = fresh_list(eng, name, "list[list[int]]")
+        na = ArrV(obj.shape, lambda ix, lv=lv: lv.get(ix[0]), "obj")
+        na.bufs = obj.bufs
+        st.heap[ref.loc] = na
+        return
     if isinstance(obj, ArrV):
         na = eng.fresh_array(name, obj.shape, obj.dtype)
         na.bufs = obj.bufs
